@@ -380,7 +380,7 @@ func TestVerif_C10(t *testing.T) {
 	if r.Thorough() {
 		maxSessions = 3
 	}
-	r.Rule(fmt.Sprintf("base files: library-written (superblock 0/2/3 x dataset with 0/3/7/9 attributes + second dataset + group with nested dataset) and small reference-library files; histories of <= %d sessions, each OpenForWrite + <= 2 operations from {noop, upsert(a|k00|new, i32a|s40|f64x3), delete(k00|absent), overwrite data, create dataset, create group} + Close; after every session the dump must equal the previous dump with exactly the session's successful modifications applied, untouched objects must be unchanged, a session without a successful modification must leave the file byte-identical, the superblock may change only in its end-of-file address and checksum, and the independent decoder must find no error or deviation tag after the session that neither the file had before nor any freshly written library file has; non-trivial = history with at least one successful modification", maxSessions))
+	r.Rule(fmt.Sprintf("base files: library-written (superblock 0/2/3 x dataset with 0/3/7/9 attributes + second dataset + group with nested dataset) and small reference-library files; histories of <= %d sessions, each OpenForWrite + <= 2 operations from {noop, upsert(a|k00|new, i32a|s40|f64x3), an upsert refused for its size, delete(k00|absent), overwrite data, create dataset, create group} + Close; after every session the dump must equal the previous dump with exactly the session's successful modifications applied, untouched objects must be unchanged, a session without a successful modification must leave the file byte-identical, the superblock may change only in its end-of-file address and checksum, and the independent decoder must find no error or deviation tag after the session that neither the file had before nor any freshly written library file has; non-trivial = history with at least one successful modification", maxSessions))
 	var states sync.Map
 	nstates := int64(0)
 	for _, base := range bases {
@@ -398,6 +398,9 @@ func TestVerif_C10(t *testing.T) {
 		// of the header has been deleted or resized in the same session
 		ops = append(ops, vfSOp{Op: "attr", Path: tgt, Name: "k00", Value: "i64b"}, vfSOp{Op: "attr", Path: tgt, Name: "k02", Value: "f32b"},
 			vfSOp{Op: "delattr", Path: tgt, Name: "k01"})
+		// a write that is refused for its size (a refused call is no modification; what it leaves
+		// on the handle shows in the calls after it)
+		ops = append(ops, vfSOp{Op: "attr", Path: tgt, Name: "big", Value: "f64x9000"})
 		ops = append(ops, vfSOp{Op: "delattr", Path: tgt, Name: "k00"}, vfSOp{Op: "delattr", Path: tgt, Name: "absent"},
 			vfSOp{Op: "write", Path: tgt, Pat: 5}, vfSOp{Op: "mkds", Path: "/newds"}, vfSOp{Op: "mkgroup", Path: "/newgrp"})
 		if len(base.ds) > 1 {
